@@ -144,6 +144,7 @@ type c01Gen struct {
 	bad    bool // an error has been injected
 	wantE  bool // inject one error somewhere
 	budget int
+	withTS bool // also generate type switches with a binding (C03 stream T)
 }
 
 func (g *c01Gen) vars(t string) []string {
@@ -398,6 +399,7 @@ type ts struct {
 
 type tsClause struct {
 	Es      []*tx
+	Types   []string // type switch clause
 	Default bool
 	Body    []*ts
 }
@@ -514,10 +516,43 @@ func (g *c01Gen) stmt(d int) *ts {
 	t := c01ValTypes[r.Intn(len(c01ValTypes))]
 	g.budget = 6
 	x := r.Intn(20)
+	if g.withTS {
+		x = r.Intn(22)
+	}
 	if d <= 0 && x >= 9 {
 		x = r.Intn(9)
 	}
 	switch x {
+	case 20, 21:
+		s := &ts{K: "typeswitch", Name: g.newName(), E: &tx{K: "var", Name: "pa"}}
+		pool := []string{"int", "string", "float64", "MyInt", "[]int", "*int", "S", "bool", "map[string]int"}
+		r.Shuffle(len(pool), func(i, j int) { pool[i], pool[j] = pool[j], pool[i] })
+		for i, n := 0, 1+r.Intn(3); i < n; i++ {
+			c := tsClause{}
+			k := 1
+			if r.Intn(4) == 0 {
+				k = 2
+			}
+			c.Types, pool = pool[:k], pool[k:]
+			vt := "any"
+			if k == 1 {
+				vt = c.Types[0]
+			}
+			save := len(g.env)
+			g.env = append(g.env, [2]string{s.Name, vt})
+			w := g.newName()
+			c.Body = append([]*ts{{K: "define", Name: w, E: &tx{K: "var", Name: s.Name}}}, g.block(d-1, r.Intn(3))...)
+			g.env = g.env[:save]
+			s.Clauses = append(s.Clauses, c)
+		}
+		if r.Intn(2) == 0 {
+			save := len(g.env)
+			g.env = append(g.env, [2]string{s.Name, "any"})
+			w := g.newName()
+			s.Clauses = append(s.Clauses, tsClause{Default: true, Body: append([]*ts{{K: "var", Name: w, T: "any", E: &tx{K: "var", Name: s.Name}}}, g.block(d-1, 1)...)})
+			g.env = g.env[:save]
+		}
+		return s
 	case 0, 1:
 		s := &ts{K: "define", Name: g.newName(), E: g.expr(t, 2)}
 		if t == "any" {
@@ -733,6 +768,17 @@ func (s *ts) src(b *strings.Builder, ind string) {
 			list(c.Body)
 		}
 		w("}")
+	case "typeswitch":
+		w("switch %s := %s.(type) {", s.Name, s.E.src())
+		for _, c := range s.Clauses {
+			if c.Default {
+				w("default:")
+			} else {
+				w("case %s:", strings.Join(c.Types, ", "))
+			}
+			list(c.Body)
+		}
+		w("}")
 	case "block":
 		w("{")
 		list(s.Body)
@@ -758,6 +804,32 @@ type c01B struct {
 	rec   *[]string // recorded generic operations (Coq terms), when non-nil
 	srec  *[]string // recorded statement-level operations (expression operations wrapped in OE)
 	ids   map[string]int
+	// C03: observers of the type of every sub-expression / declared variable
+	onExpr func(e *tx, t types.Type)
+	onDecl func(name string, t types.Type, init *tx)
+	init   *tx
+}
+
+func (b *c01B) decl(names ...string) {
+	if b.onDecl == nil {
+		return
+	}
+	for _, n := range names {
+		if n == "_" {
+			continue
+		}
+		if _, o := b.cb.Scope().LookupParent(n, token.NoPos); o != nil {
+			b.onDecl(n, o.Type(), b.init)
+		}
+	}
+	b.init = nil
+}
+
+func (b *c01B) expr(e *tx) {
+	b.expr1(e)
+	if b.onExpr != nil && b.cb.InternalStack().Len() > 0 {
+		b.onExpr(e, b.cb.Get(-1).Type)
+	}
 }
 
 func (b *c01B) sop(op string) {
@@ -814,7 +886,7 @@ func (b *c01B) obj(name string) types.Object {
 	panic("harness: unknown name " + name)
 }
 
-func (b *c01B) expr(e *tx) {
+func (b *c01B) expr1(e *tx) {
 	cb := b.cb
 	switch e.K {
 	case "lit":
@@ -975,6 +1047,8 @@ func (b *c01B) stmt(s *ts) {
 		cb.DefineVarStart(token.NoPos, s.Name)
 		b.expr(s.E)
 		cb.EndInit(1)
+		b.init = s.E
+		b.decl(s.Name)
 	case "var":
 		if s.E != nil {
 			cb.NewVarStart(b.typ(s.T), s.Name)
@@ -983,6 +1057,7 @@ func (b *c01B) stmt(s *ts) {
 		} else {
 			cb.NewVar(b.typ(s.T), s.Name)
 		}
+		b.decl(s.Name)
 	case "assign":
 		b.ref(s.L)
 		b.expr(s.E)
@@ -1013,12 +1088,14 @@ func (b *c01B) stmt(s *ts) {
 		cb.DefineVarStart(token.NoPos, s.Names...)
 		b.expr(s.E)
 		cb.EndInit(1)
+		b.decl(s.Names...)
 	case "commaok":
 		cb.DefineVarStart(token.NoPos, s.Names...)
 		b.expr(s.E.Kids[0])
 		b.expr(s.E.Kids[1])
 		cb.Index(1, 2)
 		cb.EndInit(1)
+		b.decl(s.Names...)
 	case "if":
 		cb.If()
 		b.sop("OIf")
@@ -1057,6 +1134,7 @@ func (b *c01B) stmt(s *ts) {
 		cb.ForRange(s.Names...)
 		b.expr(s.E)
 		cb.RangeAssignThen(token.NoPos)
+		b.decl(s.Names...)
 		b.list(s.Body)
 		cb.End()
 	case "switch":
@@ -1088,6 +1166,24 @@ func (b *c01B) stmt(s *ts) {
 		}
 		cb.End()
 		b.sop("OEnd")
+	case "typeswitch":
+		cb.TypeSwitch(s.Name)
+		b.expr(s.E)
+		cb.TypeAssertThen()
+		for _, c := range s.Clauses {
+			if c.Default {
+				cb.TypeDefaultThen()
+			} else {
+				cb.TypeCase()
+				for _, t := range c.Types {
+					cb.Typ(b.typ(t))
+				}
+				cb.Then()
+			}
+			b.list(c.Body)
+			cb.End()
+		}
+		cb.End()
 	case "block":
 		cb.Block()
 		b.sop("OBlock")
